@@ -7,5 +7,10 @@ import SlugModel.Lemmas.TrEq_validSymlink
 import SlugModel.Lemmas.TrEq_parseLocalSource
 import SlugModel.Lemmas.TrEq_splitSubPath
 import SlugModel.Lemmas.TrEq_excludes
+import SlugModel.Lemmas.TrEq_isSymlink
+import SlugModel.Lemmas.TrEq_isDirectory
+import SlugModel.Lemmas.TrEq_isTypeX
+import SlugModel.Lemmas.TrEq_isRegular
+import SlugModel.Lemmas.TrEq_newUnpackInfo
 /-! All translation equalities (one file per function, so that a function that changes breaks only
 the obligations stated over it). -/
